@@ -1,6 +1,7 @@
 """C04 - reset is local: target to |0>, other qubits' statistics unchanged."""
 import time
 
+import qrt_common
 import qsim_common
 import vlib
 
@@ -15,9 +16,17 @@ def run(tier, seed):
     for i, v in enumerate([v for v in rep["violations"] if v["property"] == PID][:5]):
         out.violation(v["what"], {"kind": "qsim-edge", "spec_state": v["state"], "action": v["action"],
                                   "what": v["what"]}, "edge%d" % i)
+    # implicit resets (object destruction, index re-use) at program level: QRuntime behaviours
+    stats, by_prop, sample = qrt_common.run(tier, seed)
+    pv = by_prop.get(PID, [])
+    for v in pv[:5]:
+        out.violation(v["what"], v, "beh%d" % v["behaviour"])
+    nviol += len(pv)
     cov = {"states": meta["distinct"], "transitions": meta["generated"],
            "traces_validated_against_impl": rep["per_action"].get("reset", 0),
            "reset_calls_on_impl": rep["reset_draws"],
+           "programs_run": stats["behaviours"], "programs_with_destroy": stats["with_destroy"],
+           "programs_with_index_reuse": stats["with_index_reuse"],
            "nonstandard_unravelling_poststates": rep["nonstandard_reset_poststates"],
            "samples": rep["samples"][:3] + [{"state": "2|00|1,0,0,0,1,;0,0,0,0,0,;0,0,0,0,0,;1,0,0,0,1,;", "action": "reset(0)",
                                              "note": "Bell pair, unmeasured target: the witness of the defect fixed in 0db43c9"}],
